@@ -383,6 +383,8 @@ class KInterp:
                     rk = OWN
                 else:
                     rv = self.eval(r, st)
+                    if isinstance(rv, GExpr) and self._tbl_bool(rv):
+                        rv = self._as_bool(rv)
                     if isinstance(rv, BExpr):
                         rk, mask = OWN, rv
                     elif isinstance(rv, GExpr) and rv.plain() is not None:
@@ -540,6 +542,8 @@ class KInterp:
             if e.id in ("True", "False", "None"):
                 return PyVal({"True": True, "False": False, "None": None}[e.id])
             r = self.ix.resolve_in(st["fi"], e.id)
+            if r and r[0] == "class":
+                return PyVal(r[1])
             if r and r[0] == "value":
                 try:
                     v_ = self._lift_const(self.ix.eval_const(r[2], r[1]))
@@ -634,7 +638,21 @@ class KInterp:
                 return self._pow(a, b, e)
             raise Unsupported("operator in %s" % U(e))
         if isinstance(e, ast.BoolOp):
-            vals = [self.eval(v, st) for v in e.values]
+            vals = []
+            is_and = isinstance(e.op, ast.And)
+            for v_ in e.values:
+                x_ = self.eval(v_, st)
+                if isinstance(x_, LenOf):
+                    x_ = PyVal(True)
+                if isinstance(x_, PyVal) and not isinstance(x_.v, str):
+                    if bool(x_.v) != is_and:
+                        return PyVal(bool(x_.v))       # short circuit
+                    continue                            # neutral element
+                vals.append(x_)
+            if not vals:
+                return PyVal(is_and)
+            if len(vals) == 1 and isinstance(vals[0], PyVal):
+                return vals[0]
             if all(isinstance(v, PyVal) for v in vals):
                 r = vals[0].v
                 for v in vals[1:]:
@@ -973,9 +991,29 @@ class KInterp:
             return GExpr.of(0)
         return GExpr.of(col_atom(pit, rk, colr[0], colr[1]))
 
+    def _tbl_bool(self, v):
+        """is the value a boolean user-table column (dtype 'bool' in get_component_input)?"""
+        p_ = v.plain()
+        if p_ is None or p_.single_term() is None:
+            return False
+        m_, c_ = p_.single_term()
+        if c_ != 1 or len(m_) != 1 or m_[0][1] != 1:
+            return False
+        a = m_[0][0]
+        if not (a[0] == "sym" and len(a) >= 4 and a[1] == "tbl"):
+            return False
+        try:
+            ci_ = self.ix.component_by_table(a[2])
+            for col_ in (self.ix.method_const(ci_, "get_component_input") or []):
+                if col_[0] == a[3]:
+                    return col_[1] == "bool"
+        except AnalysisError:
+            pass
+        return False
+
     def _pit_write(self, pit, rk, colr, v, G, mask):
         k = (pit, rk, colr[0], colr[1])
-        old = self.pit.get(k, GExpr.of(col_atom(pit, rk, colr[0], colr[1])))
+        old = self.pit[k] if k in self.pit else self._pit_read(pit, rk, colr)
         cond = G if mask is None else (G & mask)
         if isinstance(v, BExpr):
             v = self._as_num(v)
@@ -1020,6 +1058,17 @@ class KInterp:
         kw = {k.arg: k.value for k in e.keywords}
         if f == "hasattr":
             return PyVal(self.consts.get("hasattr:" + U(e.args[1]), True))
+        if isinstance(e.func, ast.Attribute) and not e.args and not e.keywords:
+            try:
+                recv = self.eval(e.func.value, st) if isinstance(e.func.value, (ast.Name, ast.Call)) and \
+                    U(e.func.value) not in ("np", "numpy", "pd", "super()") else None
+            except Unsupported:
+                recv = None
+            from .index import ClassInfo
+            if isinstance(recv, PyVal) and isinstance(recv.v, ClassInfo):
+                cv = self.ix.method_const(recv.v, e.func.attr)
+                if cv is not None:
+                    return self._lift_pyconst(cv)
         cls_ = self._cls(st)
         if cls_ is not None and isinstance(e.func, ast.Attribute):
             v0 = e.func.value
@@ -1158,6 +1207,8 @@ class KInterp:
                     return out
                 # membership in a literal list: an opaque per-element flag
                 lst = U(e.args[1]).replace(" ", "")
+                if isinstance(b, (list, tuple)) and all(isinstance(x_, PyVal) for x_ in b):
+                    lst = repr(sorted(str(x_.v) for x_ in b)).replace(" ", "")
                 av = self._as_num(a) if not isinstance(a, (NodeRange, Concat)) else None
                 if av is not None and av.plain() is not None:
                     from .algebra import fmt_poly
